@@ -1207,4 +1207,85 @@ theorem compStmts_names_nodup {s : St} (h : NamesNodup s) :
   rw [h1.2] at h2
   exact absurd h2.2 (by simp)
 
+/-! ### dependence on the file system -/
+section paths
+open Pepper.Sys
+
+/-- the import search consults the file system only at `<d>/<base>.sys` and `<d>/<base>.comp` for the
+    directories `d` of the search list -/
+theorem resolveImport_go_congr (probe probe' : String → Bool) (base : String) :
+    ∀ (dirs : List String),
+      (∀ d ∈ dirs, probe (pathJoin d base ++ ".sys") = probe' (pathJoin d base ++ ".sys") ∧
+                   probe (pathJoin d base ++ ".comp") = probe' (pathJoin d base ++ ".comp")) →
+      resolveImport.go probe base dirs = resolveImport.go probe' base dirs
+  | [], _ => by simp [resolveImport.go]
+  | d :: r, h => by
+    have hd := h d List.mem_cons_self
+    have ih := resolveImport_go_congr probe probe' base r (fun x hx => h x (List.mem_cons_of_mem _ hx))
+    simp only [resolveImport.go, hd.1, hd.2, ih]
+
+theorem resolveImport_congr (probe probe' : String → Bool) (base dir : String) (includes : List String)
+    (h : ∀ d ∈ dir :: includes, probe (pathJoin d base ++ ".sys") = probe' (pathJoin d base ++ ".sys") ∧
+                   probe (pathJoin d base ++ ".comp") = probe' (pathJoin d base ++ ".comp")) :
+    resolveImport probe base dir includes = resolveImport probe' base dir includes :=
+  resolveImport_go_congr probe probe' base (dir :: includes) h
+
+theorem loadStmts_congr_of (b1 b2 : Bundle) (fuel : Nat) (includes : List String)
+    (hLF : ∀ base args key pfx path a, loadFile b1 fuel base args key pfx path includes a =
+                                       loadFile b2 fuel base args key pfx path includes a) :
+    ∀ (stmts : List SStmt) (st : SysSt) (a : Nat),
+      loadStmts b1 fuel includes stmts st a = loadStmts b2 fuel includes stmts st a
+  | [], st, a => by rw [loadStmts, loadStmts]
+  | .imports items :: r, st, a => by
+    rw [loadStmts, loadStmts]
+    simp only [loadStmts_congr_of b1 b2 fuel includes hLF r]
+  | .component cname templ args ins outs :: r, st, a => by
+    rw [loadStmts, loadStmts]
+    simp only [hLF, loadStmts_congr_of b1 b2 fuel includes hLF r]
+
+theorem loadFile_congr (b1 b2 : Bundle) (hf : b1.files = b2.files)
+    (he : ∀ p, b1.exists_.contains (normPath p) = b2.exists_.contains (normPath p)) :
+    ∀ (fuel : Nat) (includes : List String) (base : String) (args : Nat) (key pfx path : String) (a : Nat),
+      loadFile b1 fuel base args key pfx path includes a = loadFile b2 fuel base args key pfx path includes a
+  | 0, includes, base, args, key, pfx, path, a => by rw [loadFile, loadFile]
+  | fuel + 1, includes, base, args, key, pfx, path, a => by
+    have hp : (fun p => b1.exists_.contains (normPath p)) = (fun p => b2.exists_.contains (normPath p)) :=
+      funext he
+    have ih := loadStmts_congr_of b1 b2 fuel includes
+      (fun base args key pfx path a => loadFile_congr b1 b2 hf he fuel includes base args key pfx path a)
+    rw [loadFile, loadFile]
+    simp only [hp, hf, ih]
+
+end paths
+
+/-! ### instance prefixes -/
+
+theorem append_sep_inj {α} (c : α) : ∀ {l1 l2 r1 r2 : List α}, c ∉ l1 → c ∉ l2 →
+    l1 ++ c :: r1 = l2 ++ c :: r2 → l1 = l2 ∧ r1 = r2
+  | [], [], _, _, _, _, h => by simp at h; exact ⟨rfl, h⟩
+  | [], y :: l2, _, _, _, h2, h => by
+    simp only [List.nil_append, List.cons_append, List.cons.injEq] at h
+    exact absurd (h.1 ▸ List.mem_cons_self) h2
+  | x :: l1, [], _, _, h1, _, h => by
+    simp only [List.nil_append, List.cons_append, List.cons.injEq] at h
+    exact absurd (h.1 ▸ List.mem_cons_self) h1
+  | x :: l1, y :: l2, r1, r2, h1, h2, h => by
+    simp only [List.cons_append, List.cons.injEq] at h
+    have := append_sep_inj c (fun m => h1 (List.mem_cons_of_mem _ m)) (fun m => h2 (List.mem_cons_of_mem _ m)) h.2
+    exact ⟨by rw [h.1, this.1], this.2⟩
+
+/-- two full names under the instance prefixes `pfx ++ c1 ++ "-"` and `pfx ++ c2 ++ "-"` are equal only if the
+    instance names are (instance names do not contain `-`), and then the local names are equal too -/
+theorem prefix_disjoint (pfx c1 c2 x y : String) (h1 : '-' ∉ c1.toList) (h2 : '-' ∉ c2.toList)
+    (h : pfx ++ c1 ++ "-" ++ x = pfx ++ c2 ++ "-" ++ y) : c1 = c2 ∧ x = y := by
+  have h' : pfx ++ (c1 ++ "-" ++ x) = pfx ++ (c2 ++ "-" ++ y) := by
+    simpa [String.append_assoc] using h
+  have h'' := (String.append_right_inj pfx).1 h'
+  have hl := congrArg String.toList h''
+  simp only [String.toList_append] at hl
+  have hd : "-".toList = ['-'] := rfl
+  rw [hd, List.append_assoc, List.append_assoc] at hl
+  have := append_sep_inj '-' h1 h2 hl
+  exact ⟨String.toList_inj.1 this.1, String.toList_inj.1 this.2⟩
+
 end Pepper.CompShift
